@@ -1,6 +1,8 @@
 package main
 
 import (
+	"encoding/hex"
+	runewidth "github.com/mattn/go-runewidth"
 	"path/filepath"
 	"bytes"
 	"encoding/json"
@@ -369,6 +371,31 @@ func runC16(c *ctx, r *Report) error {
 						}
 					}
 				}
+				// the indicator line against the Lean model AL.Render.indicator (op `indicator`): go-runewidth answers for the
+				// width of the bytes before the column and of the runes the underline covers
+				if col >= 1 && col-1 <= len(shown) {
+					sw := runewidth.StringWidth(shown[:col-1])
+					seen := map[rune]bool{}
+					var table []string
+					for rest := shown[col-1:]; len(rest) > 0; {
+						rn, size := utf8.DecodeRuneInString(rest)
+						if !seen[rn] {
+							seen[rn] = true
+							table = append(table, fmt.Sprintf("(%d,%d)", rn, runewidth.RuneWidth(rn)))
+						}
+						rest = rest[size:]
+					}
+					tb := "E"
+					if len(table) > 0 {
+						tb = "(" + strings.Join(table, ",") + ")"
+					}
+					ln := hex.EncodeToString([]byte(shown))
+					if ln == "" {
+						ln = "-"
+					}
+					b.add(fmt.Sprintf("indicator %s %d %d %s", ln, col, sw, tb), hx(ind), Case{Op: "indicator", Input: map[string]string{"line": strconv.Quote(truncate(shown, 200)), "col": strconv.Itoa(col)}})
+					r.hist("snippet:indicator-modelled")
+				}
 				if tf != nil && !strings.HasPrefix(tf.Snippet, shown) {
 					r.finding("template-snippet", "GetTemplateFields snippet differs from the line PrettyPrint shows", mk(tf.Snippet))
 				}
@@ -397,6 +424,102 @@ func runC16(c *ctx, r *Report) error {
 		}
 		if len(src) < 2000 && line >= 0 && col >= 0 {
 			b.add(fmt.Sprintf("snippet %s %d %d", hx(src), line, col), impl, mk(""))
+		}
+	}
+	// (4) `-format '{{json .}}'`: random lists of diagnostics (messages / file names / kinds over quotes, backslashes, every
+	// control character, < > &, U+2028 / U+2029, DEL, non-ASCII and astral characters; with and without a source, so that the
+	// optional fields are present and absent) through the real ErrorFormatter; the bytes it writes vs the model's encoder
+	// AL.JsonEnc.encAll (op `jsonenc`, proved invertible in AL.C16J.json_roundtrip) on the fields GetTemplateFields returns,
+	// and encoding/json's own reader on the same bytes
+	nJSON := 600
+	if !c.quick {
+		nJSON = 20000
+	}
+	jalpha := []string{"a", "B", " ", "\"", "\\", "/", "<", ">", "&", "'", "\n", "\r", "\t", "\b", "\f", "\x00", "\x01", "\x1f", "\x7f", "\u2028", "\u2029", "\u2027", "\u202a",
+		"é", "日本", "😀", "\ufffd", "\ufeff", "{", "}", "[", "]", ":", ",", "\\n", "\\u0041", "0", "9", "\u0080", "\u07ff", "\uffff", "\U0010ffff"}
+	jstr := func(n int) string {
+		var sb strings.Builder
+		for i := 0; i < n; i++ {
+			if rng.Intn(6) == 0 {
+				sb.WriteRune(rune(rng.Intn(0x20)))
+			} else {
+				sb.WriteString(jalpha[rng.Intn(len(jalpha))])
+			}
+		}
+		return sb.String()
+	}
+	jf, jerr := actionlint.NewErrorFormatter("{{json .}}")
+	if jerr != nil {
+		return jerr
+	}
+	for i := 0; i < nJSON; i++ {
+		var src []byte
+		if rng.Intn(2) == 0 {
+			for k, n := 0, 1+rng.Intn(4); k < n; k++ {
+				src = append(src, []byte(jstr(rng.Intn(6))+strings.Repeat("x", rng.Intn(5))+"\n")...)
+			}
+			src = bytes.ToValidUTF8(bytes.ReplaceAll(bytes.ReplaceAll(src, []byte("\r"), []byte("r")), []byte("\x00"), []byte("0")), []byte("?"))
+		}
+		var es []*actionlint.Error
+		for k, n := 0, rng.Intn(4); k < n; k++ {
+			fp := ""
+			if rng.Intn(3) > 0 {
+				fp = []string{"a.yml", ".github/workflows/<x>.yaml", jstr(1 + rng.Intn(4))}[rng.Intn(3)]
+			}
+			es = append(es, &actionlint.Error{Message: jstr(rng.Intn(9)), Filepath: fp, Line: rng.Intn(6), Column: rng.Intn(12), Kind: []string{"expression", "syntax-check", jstr(1 + rng.Intn(3))}[rng.Intn(3)]})
+		}
+		var out bytes.Buffer
+		pm := ""
+		func() {
+			defer func() {
+				if x := recover(); x != nil {
+					pm = fmt.Sprint(x)
+				}
+			}()
+			if err := jf.PrintErrors(&out, es, src); err != nil {
+				pm = "error: " + err.Error()
+			}
+		}()
+		r.Evaluations++
+		mkj := func(extra string) Case {
+			var in []string
+			for _, e := range es {
+				in = append(in, strconv.Quote(e.Error()))
+			}
+			return Case{Op: "jsonenc", Input: map[string]string{"errors": strings.Join(in, " | "), "source": strconv.Quote(string(src)), "output": strconv.Quote(truncate(out.String(), 400)), "note": extra}}
+		}
+		if pm != "" {
+			r.Crashes = append(r.Crashes, mkj("-format '{{json .}}' on a constructed list: "+pm))
+			continue
+		}
+		args := []string{"jsonenc"}
+		var want []*actionlint.ErrorTemplateFields
+		for _, e := range es {
+			tf := e.GetTemplateFields(src)
+			want = append(want, tf)
+			args = append(args, hx(tf.Message), hx(tf.Filepath), strconv.Itoa(tf.Line), strconv.Itoa(tf.Column), hx(tf.Kind), hx(tf.Snippet), strconv.Itoa(tf.EndColumn))
+		}
+		b.add(strings.Join(args, " "), hx(out.String()), mkj(""))
+		var back []*actionlint.ErrorTemplateFields
+		if err := json.Unmarshal(out.Bytes(), &back); err != nil {
+			r.finding("json-unparsable", "-format '{{json .}}' output of a constructed list is not valid JSON: "+err.Error(), mkj(""))
+			continue
+		}
+		same := len(back) == len(want)
+		for k := 0; same && k < len(back); k++ {
+			same = *back[k] == *want[k]
+		}
+		if !same {
+			r.finding("json-roundtrip", "-format '{{json .}}' does not round-trip the fields of a constructed list of diagnostics", mkj(""))
+		}
+		if strings.Count(out.String(), "\n") != 1 || !strings.HasSuffix(out.String(), "\n") {
+			r.finding("json-not-one-line", "-format '{{json .}}' output is not exactly one line", mkj(""))
+		}
+		if len(es) > 0 {
+			r.nontrivial("json:" + out.String())
+			r.hist(fmt.Sprintf("json:records=%d,src=%v", len(es), len(src) > 0))
+		} else {
+			r.hist("json:empty-list")
 		}
 	}
 	r.sample(map[string]string{"op": "matcher", "line": "a.yml:1:2: character '[' is invalid [glob]", "impl": matchCanon(re, "a.yml:1:2: character '[' is invalid [glob]")})
